@@ -74,6 +74,11 @@ class World:
         self.exec_log = []
         self.probe = Probe(self.exec_log)
         self.proxy = ThreadsafeProxy(self.probe, self.owner)
+        if params.get("nested"):
+            # an unusual but legal input: a proxy handed to ThreadsafeProxy again, designated to the caller's loop (an application
+            # object that is itself a proxy passed down as `application`).  Calls from the caller's loop go through the outer
+            # proxy directly into the inner one, which must still dispatch them to the owner's loop.
+            self.proxy = ThreadsafeProxy(self.proxy, self.caller)
         self.owner_state = "running"
         self.viol = []
         self.ended = False
@@ -395,6 +400,11 @@ def param_list(tier):
         bursts += [[("caller", list(k), "fresh")] for k in itertools.permutations(["plain_none", "plain_raise", "co_val"], 3)]
     for b in bursts:
         out.append({"scripts": b})
+    # proxy of a proxy, used from the caller's loop
+    for kind in KINDS:
+        out.append({"scripts": [("caller", [kind], "fresh")], "nested": True})
+    out.append({"scripts": [("caller", ["plain_val", "plain_none", "co_val"], "fresh")], "nested": True})
+    out.append({"scripts": [("caller", ["co_val", "co_raise"], "fresh"), ("caller", ["plain_none", "co_val"], "fresh")], "nested": True})
     return out
 
 
